@@ -178,15 +178,14 @@ theorem cbc_first_block_trick {β : Type} (W : β → Prop) (xor : β → β →
   simp only [Spec.cbcEncrypt, Spec.cbcDecrypt, List.tail_cons]
   exact cbcDecrypt_cbcEncrypt L bs _ (L.enc_wf _ (L.xor_wf _ _ hz hiv)) hbs
 
-/-- non-vacuity: 16-byte strings with bytewise xor and any length-preserving permutation pair -/
-example : CbcLaws (fun b : Bytes => b.length = 2) xorBytes (fun b => b.reverse) (fun b => b.reverse) where
-  xor_cancel := by
-    intro a b ha hb
-    match a, b, ha, hb with
-    | [a0, a1], [b0, b1], _, _ => simp [xorBytes, UInt8.xor_assoc]
-  xor_wf := by intro a b ha hb; simp [xorBytes, ha, hb]
-  enc_wf := by intro x hx; simpa using hx
-  dec_enc := by intro x _; simp
+/-- non-vacuity, and the shape in which the driver uses the model: 16-byte strings, bytewise xor, a
+length-preserving block function with an inverse (here: add / subtract 1 in every byte) -/
+example : CbcLaws (fun b : Bytes => b.length = 16) xorBytes (fun b => b.map (· + 1)) (fun b => b.map (· - 1)) :=
+  cbcLaws_bytes16 _ _ (fun x hx => by simpa using hx) (fun x _ => by
+    simp only [List.map_map]
+    have : ((fun x : UInt8 => x - 1) ∘ fun x => x + 1) = id := by
+      funext y; simp
+    rw [this, List.map_id])
 
 /-! ## hexadecimal keys -/
 
